@@ -263,7 +263,7 @@ func exploreArith(fe []mc.Val, pairs []mc.Pair) {
 			op := &uops[oi]
 			for _, aliased := range []bool{false, true} {
 				R.T(1)
-				if m := runUn(op, va, aliased); m != "" {
+				if m := mc.Safe(func() string { return runUn(op, va, aliased) }); m != "" {
 					al := "z|a"
 					if aliased {
 						al = "z=a"
@@ -293,7 +293,7 @@ func exploreArith(fe []mc.Val, pairs []mc.Pair) {
 						continue
 					}
 					t++
-					if m := runBin(op, va, vb, al); m != "" {
+					if m := mc.Safe(func() string { return runBin(op, va, vb, al) }); m != "" {
 						R.Fail("field/"+op.name+"/"+al.name, "binary", map[string]any{"op": op.name, "alias": al.name, "a": hexv(va), "b": hexv(vb),
 							"label_a": fe[i].Label, "label_b": fe[j].Label, "mismatch": m}, func() bool { return runBin(op, va, vb, al) != "" })
 					}
@@ -327,7 +327,7 @@ func exploreArith(fe []mc.Val, pairs []mc.Pair) {
 			op := &bops[oi]
 			for _, al := range binAliases {
 				R.T(1)
-				if m := runBin(op, p.A, p.B, al); m != "" {
+				if m := mc.Safe(func() string { return runBin(op, p.A, p.B, al) }); m != "" {
 					p := p
 					R.Fail("field/"+op.name+"/"+al.name+"/steered", "binary", map[string]any{"op": op.name, "alias": al.name, "a": hexv(p.A), "b": hexv(p.B),
 						"class": p.Class, "mismatch": m}, func() bool { return runBin(op, p.A, p.B, al) != "" })
@@ -338,7 +338,7 @@ func exploreArith(fe []mc.Val, pairs []mc.Pair) {
 		// squares of steered mul pairs with a == b are covered by Square over FE; also square both
 		for _, v := range []*big.Int{p.A, p.B} {
 			R.T(1)
-			if m := runUn(&uops[1], v, false); m != "" {
+			if m := mc.Safe(func() string { return runUn(&uops[1], v, false) }); m != "" {
 				R.Fail("field/Square/steered", "unary", map[string]any{"a": hexv(v), "mismatch": m}, nil)
 			}
 		}
@@ -386,7 +386,7 @@ func exploreArith(fe []mc.Val, pairs []mc.Pair) {
 				continue
 			}
 			t++
-			if m := runUn(op, va, i%2 == 0); m != "" {
+			if m := mc.Safe(func() string { return runUn(op, va, i%2 == 0) }); m != "" {
 				R.Fail("field/"+op.name+"/level2", "unary", map[string]any{"op": op.name, "a": hexv(va), "mismatch": m}, func() bool { return runUn(op, va, i%2 == 0) != "" })
 			}
 		}
@@ -396,11 +396,11 @@ func exploreArith(fe []mc.Val, pairs []mc.Pair) {
 				op := &bops[oi]
 				al := binAliases[(i+j+oi)%3]
 				t += 2
-				if m := runBin(op, va, vb, al); m != "" {
+				if m := mc.Safe(func() string { return runBin(op, va, vb, al) }); m != "" {
 					R.Fail("field/"+op.name+"/"+al.name+"/level2", "binary", map[string]any{"op": op.name, "alias": al.name, "a": hexv(va), "b": hexv(vb), "mismatch": m},
 						func() bool { return runBin(op, va, vb, al) != "" })
 				}
-				if m := runBin(op, vb, va, al); m != "" {
+				if m := mc.Safe(func() string { return runBin(op, vb, va, al) }); m != "" {
 					R.Fail("field/"+op.name+"/"+al.name+"/level2", "binary", map[string]any{"op": op.name, "alias": al.name, "a": hexv(vb), "b": hexv(va), "mismatch": m},
 						func() bool { return runBin(op, vb, va, al) != "" })
 				}
